@@ -80,6 +80,27 @@ def run(chk, replay=None):
                 match = any(pred(key) for key in kp)
                 sibmatch = bool(sib) and any(x.startswith('$') and pred(x[1:]) for x in sib)
                 case = {'re': rx, 'path': list(kp), 'value': str(val)[:80], 'input': l.decode('utf-8', 'replace')[:2500]}
+                if ((match and full_redacts and not changed) or (not match and not sibmatch and not srch and changed)) and not getattr(chk, '_shrunk', False):
+                    chk._shrunk = True
+                    from vlib import shrink
+                    want_missed = (match and full_redacts and not changed)
+                    def fails(b, cfg=cfg, pred=pred, want_missed=want_missed):
+                        t = jtree.parse(b)
+                        o, f2 = shrink.impl_line(cfg, b), shrink.impl_line(Cfg(nums=True, bools=True), b)
+                        if t is None or not isinstance(o, bytes) or not isinstance(f2, bytes): return False
+                        to, tf = jtree.parse(o), jtree.parse(f2)
+                        try:
+                            for ip2, kp2, k2, val2, srch2, sib2 in zone_paths(t):
+                                ch2, fr2 = get_by(to, ip2) != val2, get_by(tf, ip2) != val2
+                                m2 = any(pred(key) for key in kp2)
+                                sm2 = bool(sib2) and any(x.startswith('$') and pred(x[1:]) for x in sib2)
+                                if want_missed and m2 and fr2 and not ch2: return True
+                                if not want_missed and not m2 and not sm2 and not srch2 and ch2: return True
+                        except Exception:
+                            return False
+                        return False
+                    sb = shrink.shrink_line(l, fails)
+                    case = dict(case, shrunk_input=sb.decode('utf-8', 'replace'), shrunk_output=str(shrink.impl_line(cfg, sb))[:600])
                 if match and full_redacts and not changed:
                     chk.violate('a literal under a matching field name is not redacted', case, tags=['missed'] + (['search'] if srch else []) + (['vectorsearch_filter'] if any(kp[i:i + 2] == ('$vectorSearch', 'filter') for i in range(len(kp))) else []))
                 if not match and not sibmatch and not srch and changed:
